@@ -37,14 +37,15 @@ RULE = (
     "native execution) on members that live in iteration engines only, including transfers between iteration "
     "engines and user-defined marker relations. "
     "  Trees returned by Processor.process enter the pool as members of their own (their transfer / materialization payloads are part of the fingerprint); factory steps are applied to those objects, and compile steps accept trees whose transfers and materializations all carry payloads. "
+    "  'redo' steps repeat the factory call that built a member on the very same operand objects, whatever has happened to them since (processing, payloads attached): the result must equal the member (==, str, hash).  12 % of the histories start with a directed prefix: a materialized chain of a doomed relation and a SQL leaf, a join of it with a selection of that leaf, process() of the materialization, and the join built again. "
 )
 ASSUMPTIONS = [
     "materializations and leaves are explicitly named (auto-generated names are unique per call by design)",
     "fingerprints observe public attributes only; Materialization payload attachment is C10's subject and excluded",
 ]
-MIN_OBS = {"steps_executed": 5000, "native_double_executions": 300, "lookalikes_built": 300, "isolation_replays": 1000, "fingerprint_sweeps": 5000, "rebuild_comparisons": 300, "double_compilations": 300, "double_executions": 300, "hash_checks": 3000}
+MIN_OBS = {"steps_executed": 5000, "factory_calls_repeated": 1000, "directed_doomed_chain_histories": 50, "native_double_executions": 300, "lookalikes_built": 300, "isolation_replays": 1000, "fingerprint_sweeps": 5000, "rebuild_comparisons": 300, "double_compilations": 300, "double_executions": 300, "hash_checks": 3000}
 CASE_TIMEOUT = 180
-STEP_KINDS = ["factory", "factory", "factory", "factory", "binary", "binary", "compile", "execute", "execute", "execute_native", "process", "diagnose", "lookalike"]
+STEP_KINDS = ["factory", "factory", "factory", "factory", "binary", "binary", "redo", "compile", "execute", "execute", "execute_native", "process", "diagnose", "lookalike"]
 
 
 def budget(tier):
@@ -59,7 +60,16 @@ def gen_case(rng, tier):
     for e in ("sql", "it", "it2", rng.choice(c03.ENG)):
         g.leaf(e, allow_special=rng.random() < 0.3)
     steps = rng.randint(25, 60) if tier == "quick" else rng.randint(60, 200)
-    return {"leaves": g.leaves, "seed": rng.randint(0, 10**9), "steps": steps}
+    case = {"leaves": g.leaves, "seed": rng.randint(0, 10**9), "steps": steps}
+    sql_leaves = [n for n, sp in g.leaves.items() if sp["engine"] == "sql" and sp.get("kind") == "normal" and sp["cols"]]
+    if sql_leaves and rng.random() < 0.12:
+        # directed prefix: a materialized chain of a doomed relation and a leaf (the Processor prunes
+        # the doomed branch, so the materialization ends up holding the leaf's own payload), and a
+        # join of it with a selection of that leaf, built before and re-built after process()
+        name = rng.choice(sql_leaves)
+        g.leaves["LD"] = {"engine": "sql", "cols": list(g.leaves[name]["cols"]), "rows": [], "kind": "doomed"}
+        case["directed_doomed"] = name
+    return case
 
 
 def run_case(case):
@@ -113,6 +123,44 @@ def run_case(case):
                     out["violations"].append({"kind": "existing_relation_changed", "detail": f"{model.show(ent['prog'])} changed in {diff} after step {after}"})
                     ent["fp"] = now
 
+        def redo(ent, after):
+            """The same factory call on the same operand objects, later in the history: an equal relation."""
+            prog = ent["prog"]
+            if prog[0] == "leaf" or ent.get("processed"):
+                return False
+            kids = [prog[1], prog[2]] if prog[0] in ("chain", "join") else [prog[1]]
+            try:
+                args = [b.memo[repr(k)] for k in kids]
+            except KeyError:
+                return False
+            try:
+                again = b.apply(prog, *args)
+            except Exception as exc:  # noqa: BLE001
+                out["violations"].append({"kind": "repeated_factory_call_raised", "detail": f"{model.show(prog)} built again on the same operands after {after}: {exc_str(exc)}"})
+                return True
+            c["factory_calls_repeated"] = c.get("factory_calls_repeated", 0) + 1
+            if again != ent["rel"] or str(again) != str(ent["rel"]) or safe_hash(again) != safe_hash(ent["rel"]):
+                out["violations"].append({"kind": "repeated_factory_call_gives_different_relation", "detail": f"{model.show(prog)} built again on the same operand objects after {after}: {short(again, 250)} vs {short(ent['rel'], 250)}"})
+            return True
+
+        if case.get("directed_doomed"):
+            lname = case["directed_doomed"]
+            col = sorted(case["leaves"][lname]["cols"])[0]
+            cached_prog = ["mat", ["chain", ["leaf", "LD"], ["leaf", lname]], "MD"]
+            sel_prog = ["sel", ["leaf", lname], ["cmp", "ge", ["ref", col], ["lit", -1]], None]
+            join_prog = ["join", cached_prog, sel_prog, None, None] if rng.random() < 0.5 else ["join", sel_prog, cached_prog, None, None]
+            try:
+                for pr in (cached_prog, sel_prog, join_prog):
+                    r0 = b.build(pr)
+                    add(pr, r0, {t.qualified_name for t in r0.columns}, str(r0.engine))
+                jent = pool[-1]
+                VProcessor(db).process(b.memo[repr(cached_prog)])
+                sweep("directed process")
+                redo(jent, "process() of its materialized operand")
+                c["directed_doomed_chain_histories"] = 1
+            except (BuildFailure, R.RelationalAlgebraError):
+                pass
+
         for step in range(case["steps"]):
             kind = rng.choice(STEP_KINDS)
             ent = rng.choice(pool)
@@ -144,6 +192,9 @@ def run_case(case):
                     else:
                         rel = b.build(prog)
                         add(prog, rel, {t.qualified_name for t in rel.columns}, str(rel.engine))
+                elif kind == "redo":
+                    if not redo(ent, f"step {step}"):
+                        continue
                 elif kind == "lookalike":
                     # the same call sequence with literals replaced by equal values of another type:
                     # a relation that compares equal to an existing one but must keep its own meaning
